@@ -51,19 +51,25 @@ Walks(sc) == LET S == ScopeSet(sc) IN
 NSteps(w) == IF DOMAIN w = {} THEN 0 ELSE Max({w[v] : v \in DOMAIN w})
 FixedUpTo(w, vals, k) == [v \in {u \in DOMAIN w : w[u] # 0 /\ w[u] <= k} |-> vals[v]]
 StepAsg(w, vals, k) == [v \in {u \in DOMAIN w : w[u] = k} |-> vals[v]]
-ValChoices(sc) == LET S == ScopeSet(sc) IN
-  IF Cardinality(S) <= 2 THEN {f \in [S -> 1..3] : \A v \in S : f[v] <= DS[v]}
+ValChoices(sc, ds) == LET S == ScopeSet(sc) IN
+  IF Cardinality(S) <= 2 THEN {f \in [S -> 1..3] : \A v \in S : f[v] <= ds[v]}
   ELSE {f \in RandomSubset(3, [S -> 1..3]) : TRUE}
-Clip(f) == [v \in DOMAIN f |-> IF f[v] > DS[v] THEN DS[v] ELSE f[v]]
+Clip(f, ds) == [v \in DOMAIN f |-> IF f[v] > ds[v] THEN ds[v] ELSE f[v]]
+\* expression relations over four variables (weights make every exchange of two variables visible): the order in which an
+\* expression function lists its remaining variables after a partial application matters from three variables on
+DS4 == [w |-> 2, x |-> 2, y |-> 2, z |-> 3]
+WideScopes == {<<"w", "x", "y", "z">>, <<"z", "w", "y", "x">>, <<"y", "z", "x", "w">>}
+WideRels == {[kind |-> "expr", torder |-> to,
+              rel |-> [scope |-> sc, ds |-> DS4, tab |-> [i \in 1..24 |-> CInt((i * i) % 29)]]] : sc \in WideScopes, to \in WideScopes}
 
 CaseOf(b, w, vals) ==
   [rel |-> b, steps |-> [k \in 1..NSteps(w) |-> StepAsg(w, vals, k)],
    exp |-> [k \in 1..(NSteps(w) + 1) |-> Slice(b.rel, FixedUpTo(w, vals, k - 1))]]
 
-AllRels == MatrixRels \cup ExprRels \cup PyRels \cup UnaryRels \cup BoolRels \cup ZeroRels \cup NeutralRels \cup CondRels
+AllRels == MatrixRels \cup ExprRels \cup PyRels \cup UnaryRels \cup BoolRels \cup ZeroRels \cup NeutralRels \cup CondRels \cup WideRels
 VARIABLE case
-Init == \E b \in AllRels : \E w \in Walks(b.rel.scope) : \E vals \in ValChoices(b.rel.scope) :
-           case = CaseOf(b, w, Clip(vals))
+Init == \E b \in AllRels : \E w \in Walks(b.rel.scope) : \E vals \in ValChoices(b.rel.scope, b.rel.ds) :
+           case = CaseOf(b, w, Clip(vals, b.rel.ds))
 Next == UNCHANGED case
 Emit == PrintT(<<"CASE", ToJson(case)>>)
 ====
